@@ -68,11 +68,25 @@ func runC16(w *World, r *Report, tier string) {
 		return
 	}
 	hc := hcalls[0].(*ssa.Call)
-	okID := false
-	if ex, ok := origin(hc.Call.Args[1]).(*ssa.Extract); ok && ex.Index == 0 {
-		if c, ok := ex.Tuple.(*ssa.Call); ok && w.callKey(c) == "xmpp.Transport.Connect" {
-			okID = true
+	// on every path of Resume that reaches the digest, its argument is the first result of transport.Connect()
+	okID, nID := true, 0
+	isHC := func(in ssa.Instruction) bool { return in == ssa.Instruction(hc) }
+	if err := walkPaths(entryLoc(res), isHC, nil, 50000, func(path []ssa.Instruction, end pathEnd) {
+		if !isHC(path[len(path)-1]) {
+			return
 		}
+		nID++
+		one := false
+		if ex, ok := resolveOn(hc.Call.Args[1], len(path)-1, path).(*ssa.Extract); ok && ex.Index == 0 {
+			if c, ok := ex.Tuple.(*ssa.Call); ok && w.callKey(c) == "xmpp.Transport.Connect" {
+				one = true
+			}
+		}
+		if !one {
+			okID = false
+		}
+	}); err != nil || nID == 0 {
+		okID = false
 	}
 	r.Check(okID, "O2", "xmpp.(*Component).Resume→handshake#stream-id", w.ipos(hc), "the digest is not computed over the stream id returned by transport.Connect()", "handshake(first result of c.transport.Connect())")
 	// XMPPTransport.Connect returns StartStream(); StartStream returns InitStream's id on the nil-error path
